@@ -861,11 +861,15 @@ func (w *World) processRepoPackageOnce(p *packages.Package, imp types.Importer, 
 					}
 					return true
 				})
+				usesIter := false
 				ast.Inspect(ex, func(n ast.Node) bool {
 					switch x := n.(type) {
 					case *ast.SelectorExpr:
 						ast.Inspect(x.X, func(m ast.Node) bool { return true })
 					case *ast.Ident:
+						if x.Name == "iter" {
+							usesIter = true
+						}
 						if seenL[x.Name] || bound[x.Name] || x.Name == "iter" {
 							return true
 						}
@@ -892,9 +896,14 @@ func (w *World) processRepoPackageOnce(p *packages.Package, imp types.Importer, 
 				}
 				cl.Pred = fmt.Sprintf("%s_%s_%d_%d", pre, base, cl.Loop, j)
 				fmt.Fprintf(&gen, "func %s(%s) %s { return %s }\n\n", cl.Pred, strings.Join(append([]string{"iter int"}, ltypes...), ", "), ret, expr)
+				// the iteration count exists for range loops over slices only: it is passed when the clause names it
+				iterArg := "0"
+				if usesIter {
+					iterArg = "vcIter()"
+				}
 				file := w.Fset.Position(body.Lbrace).Filename
 				inserts[file] = append(inserts[file], ins{off: w.Fset.Position(body.Lbrace).Offset + 1,
-					text: fmt.Sprintf(" %s(%s); ", cl.Pred, strings.Join(append([]string{"vcIter()"}, locals...), ", "))})
+					text: fmt.Sprintf(" %s(%s); ", cl.Pred, strings.Join(append([]string{iterArg}, locals...), ", "))})
 			}
 		}
 	}
@@ -1003,6 +1012,9 @@ func (w *World) processRepoPackageOnce(p *packages.Package, imp types.Importer, 
 			"vcPrinted":    "func vcPrinted() bool { return false }\n",
 			"vcLoggedError": "func vcLoggedError() bool { return false }\n",
 			"vcCallFailed":  "func vcCallFailed() bool { return false }\n",
+			"vcCalled":      "func vcCalled(callee string) bool { return false }\n",
+			"vcResult":      "func vcResult[T any](callee string, idx int) T { var z T; return z }\n",
+			"vcArg":         "func vcArg[T any](callee string, idx int) T { var z T; return z }\n",
 			"implies":      "func implies(a, b bool) bool { return !a || b }\n",
 		}
 		var hn []string
